@@ -16,7 +16,7 @@ if [ -d /verif/build/sdk ]; then
   find "$M/build" -name '*.d' -print0 | xargs -0 sed -i "s#/repo/#$M/#g; s#/verif/build/#$M/build/#g"
 fi
 cd /verif
-VERIF_REPO="$M" VERIF_BUILD="$M/build" VERIF_REPLAY_DIR="$M/replays" bin/check "$PROP" "$TIER"
+VERIF_REPO="$M" VERIF_BUILD="$M/build" VERIF_REPLAY_DIR="$M/replays" VERIF_EVIDENCE_DIR="$M/evidence" bin/check "$PROP" "$TIER"
 rc=$?
 if [ -d "$M/replays" ]; then
   for f in "$M"/replays/*.json; do [ -f "$f" ] && python3 - "$f" <<'PY'
